@@ -606,6 +606,7 @@ func checkC06(c *Ctx) {
 			c.c06Usable(m, cons, handled, gs)
 		}
 	}
+	c.dataReadErrorVerdict("C06/USABLE/read-error-verdict", m)
 }
 
 // definitelyNonNilErr: package-level sentinel loads and fresh errors.
@@ -709,4 +710,37 @@ func resultIsBool(fn *ssa.Function) (bool, bool) {
 	}
 	b, ok := res.At(0).Type().Underlying().(*types.Basic)
 	return ok && b.Kind() == types.Bool, true
+}
+
+// dataReadErrorVerdict: a read of the DATA block that fails is reported as that failure. A
+// return on the failure edge that hands back a package-level sentinel error instead (a
+// protocol verdict such as "message too large", which the caller answers with a reply and an
+// envelope reset) keeps the session going although the dot reader was abandoned mid-message:
+// the unread rest of the refused message is then executed as commands, and whatever it
+// spells (MAIL, RCPT, DATA … .) is delivered.
+func (c *Ctx) dataReadErrorVerdict(rule string, m *smtpModel) {
+	r := c.R
+	r.Rule(rule, "in the DATA-read function no return reachable on the error edge of a read of the data block (io.ReadAll/Copy/ReadFull/ReadDotBytes/...) hands back a package-level sentinel error: a failed read must reach the caller as a failure of the connection, not as a verdict on the message")
+	n := c.errNotSwallowedCallsX(rule, []*ssa.Function{m.dataRead}, func(call *ssa.Call) (string, bool) {
+		name := eng.CalleeName(call.Common())
+		switch name {
+		case "io.ReadAll", "io.ReadFull", "io.ReadAtLeast", "io.Copy", "io.CopyN", "io.CopyBuffer", "io/ioutil.ReadAll",
+			"(*net/textproto.Reader).ReadDotBytes", "(*net/textproto.Reader).ReadDotLines", "(*bytes.Buffer).ReadFrom":
+			return name, true
+		}
+		return name, false
+	}, false, "the session stays in the command loop with the rest of the message still unread, so that rest is run as SMTP commands (part of a refused message can be stored; the client's next command is answered out of step)", func(ret *ssa.Return) string {
+		res := eng.ReturnResults(ret)
+		if len(res) == 0 {
+			return ""
+		}
+		e := eng.StripConv(res[len(res)-1])
+		if u, ok := e.(*ssa.UnOp); ok && u.Op == token.MUL {
+			if g, ok := u.X.(*ssa.Global); ok {
+				return "returns the sentinel " + g.Name() + " as if the read had completed"
+			}
+		}
+		return ""
+	})
+	r.Floor(rule, "reads of the data block in the DATA-read function", n, 1)
 }
